@@ -3,6 +3,10 @@
 Exhaustive enumeration (engine E1) of every raster over small alphabets on small shapes x mask family x
 connectivity {4, 8}; every case is run untransformed (full comparison with a flood-fill + even-odd reference)
 and once per affine transform (vertex-by-vertex comparison with the transformed untransformed output).
+A second, deviation-bounded family reaches rasters with MANY regions: a checkerboard of 70-80 cells (under connectivity 4
+every cell is a region of its own) with every placement of one small connected motif of a third value, or of one of the two
+checkerboard letters, written over it (U shapes, corners, L, block, diagonal pair in every orientation: shapes that make the
+one-pass labelling join two provisional regions), with and without a border mask.
 polygonize runs compiled only (its `_is_close` is a numba overload and does not exist under NUMBA_DISABLE_JIT)."""
 import numpy as np
 
@@ -21,7 +25,10 @@ RULE = ("every raster of each listed shape over each listed alphabet (mixed-radi
         "fill letter > 0) are skipped and not counted as cases; a case is non-trivial when the output has >= 2 polygons "
         "or a polygon with a hole; distinct = distinct digests of (column values, ring vertex arrays); spaces named "
         "*_r<L>[_m<L>] repeat the enumeration of their un-suffixed namesake with the raster / mask held in memory layout L "
-        "(C, F, T = transposed view, S = strided view)")
+        "(C, F, T = transposed view, S = strided view); poly_checker_* spaces: rank -> (shape, motif in one orientation, "
+        "top-left position of its bounding box, motif value, mask none / border excluded, connectivity), raster = the "
+        "checkerboard (r + c) % 2 of that shape with the motif's cells overwritten by the motif value, judged like every "
+        "other case (transforms identity and general only)")
 ASSUMPTIONS = [
     "orientation convention taken from the module header and tests/test_polygonize.py: x = column index, y = row "
     "index ('+x is East, +y is North'), cell (row r, col c) is the unit square [c,c+1]x[r,r+1]; 'anticlockwise' "
@@ -38,7 +45,9 @@ ASSUMPTIONS = [
     "8-connectivity rings may touch themselves at a corner (diagonal pinch); this is accepted, the statement is "
     "asserted through the even-odd rule on cell centres and the signed areas, not through ring simplicity",
     "numpy backend, return_type='numpy', DataArray without coordinates (polygonize ignores coordinates); rasters "
-    "beyond the cell budgets and the 'random larger ones' of the quantifier are not explored (no sampling in this engine)",
+    "beyond the cell budgets and the 'random larger ones' of the quantifier are not explored (no sampling in this engine); "
+    "rasters of more than 16 cells are reached only as one motif written over a checkerboard (poly_checker_*: 5x16, 9x9, "
+    "6x12, 8x9 - 72 to 81 single-cell regions under connectivity 4, two interlocked regions under connectivity 8)",
     "memory layout: the spaces without a layout suffix pass C-contiguous arrays; the *_r<L>[_m<L>] spaces pass the SAME "
     "logical raster (and mask) held in another memory layout, L in {C, F = np.asfortranarray, T = the view returned by "
     "DataArray.transpose() of a DataArray holding the transposed C-ordered array, S = every second column of a C-ordered "
@@ -234,6 +243,9 @@ class PolySpace(Space):
     def lay(self, a, layout):
         return lay_out(a, layout, self.DataArray)
 
+    def tfs(self, shape):
+        return transforms(shape)
+
     # ---- rank -> case ------------------------------------------------------------------------------------
     def case(self, rank):
         """-> (shape, raster, bool mask or None, connectivity), or None for a rank that repeats another rank's input."""
@@ -298,7 +310,7 @@ class PolySpace(Space):
         h, w = shape
         ra = self.lay(a, self.rlay)
         rm = None if mask is None else self.lay(mask.astype(self.mask_dtype), self.mlay)
-        tfs = transforms(shape)
+        tfs = self.tfs(shape)
         try:
             col, polys = self.polygonize(ra, mask=rm, connectivity=conn, return_type="numpy")
         except Exception as e:  # in-domain input: an exception is a violation
@@ -420,6 +432,98 @@ class PolySpace(Space):
                               expected={"untransformed": [list(p) for p in polys]})
 
 
+# ---- checkerboard + one motif: rasters with many regions ------------------------------------------------------
+# motifs as pictures (row 0 first); every distinct image under the 8 rotations / reflections is a motif of its own
+MOTIF_PICTURES = [("corner3", (".X", "XX")), ("U5", ("X.X", "XXX")), ("U6", ("X..X", "XXXX")), ("U7", ("X.X", "X.X", "XXX")),
+                  ("L4", ("X.", "X.", "XX")), ("block4", ("XX", "XX")), ("diag2", ("X.", ".X"))]
+
+
+def _orientations(pic):
+    cells = frozenset((r, c) for r, row in enumerate(pic) for c, ch in enumerate(row) if ch == "X")
+    seen, out = set(), []
+    for flip in (False, True):
+        cur = frozenset((r, -c) for r, c in cells) if flip else cells
+        for _ in range(4):
+            cur = frozenset((c, -r) for r, c in cur)                      # quarter turn
+            r0, c0 = min(r for r, _ in cur), min(c for _, c in cur)
+            norm = tuple(sorted((r - r0, c - c0) for r, c in cur))
+            if norm not in seen:
+                seen.add(norm)
+                out.append(norm)
+    return sorted(out)
+
+
+MOTIFS = [("%s/%d" % (name, i), cells) for name, pic in MOTIF_PICTURES for i, cells in enumerate(_orientations(pic))]
+CHECKER = {"quick": [((5, 16), "int64"), ((9, 9), "int64"), ((6, 12), "float64"), ((8, 9), "int64")]}
+CHECKER["thorough"] = CHECKER["quick"] + [((6, 12), "int64"), ((9, 9), "float64"), ((16, 5), "int64"), ((12, 6), "int32"),
+                                          ((10, 13), "int64")]
+# motif value: the third letter first, then the checkerboard letters (0 joins the motif to its 0-neighbours: several merges)
+CHECKER_VALUES = {"quick": (2, 0), "thorough": (2, 0, 1)}
+CHECKER_MASKS = ("none", "border_out")
+CHECKER_TRANSFORMS = ("identity", "general")
+for _t in BOUNDS:
+    BOUNDS[_t]["checkerboard_plus_one_motif"] = dict(
+        template="raster[r][c] = (r + c) % 2", shapes_dtypes=[[list(sh), dt] for sh, dt in CHECKER[_t]],
+        motifs={name: ["".join("X" if (r, c) in cells else "." for c in range(1 + max(c for _, c in cells)))
+                       for r in range(1 + max(r for r, _ in cells))] for name, cells in MOTIFS},
+        placements="every position of the motif's bounding box inside the raster", motif_values=list(CHECKER_VALUES[_t]),
+        masks=list(CHECKER_MASKS), connectivity=[4, 8], transforms=list(CHECKER_TRANSFORMS))
+
+
+class CheckerSpace(PolySpace):
+    """Deviation-bounded family around the checkerboard template: one motif, every orientation, every placement."""
+
+    def __init__(self, shape, dtype, values):
+        self.shape, self.dtype, self.alphabet, self.values = shape, dtype, (0, 1, 2), values
+        self.family, self.mask_dtype, self.rlay, self.mlay = "checker", "bool", "C", "C"
+        short = {"int64": "i8", "int32": "i4", "float64": "f8", "float32": "f4"}
+        self.name = "poly_checker_%dx%d_%s" % (shape[0], shape[1], short[dtype])
+        h, w = shape
+        self.places = [(mi, r0, c0) for mi, (_, cells) in enumerate(MOTIFS)
+                       for r0 in range(h - max(r for r, _ in cells)) for c0 in range(w - max(c for _, c in cells))]
+        self.radices = [len(self.places), len(values), len(CHECKER_MASKS), 2]
+        self.size = int(np.prod(self.radices))
+        self.weight = h * w
+        self.base = (np.add.outer(np.arange(h), np.arange(w)) % 2).astype(dtype)
+        self.border = np.zeros(shape, bool)
+        self.border[1:-1, 1:-1] = True
+
+    def setup(self):
+        PolySpace.setup(self)                                  # the with-mask signatures
+        a = np.zeros((2, 3), dtype=self.dtype)
+        self.polygonize(self.lay(a, "C"))                      # ... and the two without a mask
+        self.polygonize(self.lay(a, "C"), transform=np.array([1.0, 0.0, 0.0, 0.0, 1.0, 0.0]))
+
+    def tfs(self, shape):
+        return [t for t in transforms(shape) if t[0] in CHECKER_TRANSFORMS]
+
+    def parts_of(self, rank):
+        pi, vi, mi, ci = unrank_product(rank, self.radices)
+        return self.places[pi], self.values[vi], CHECKER_MASKS[mi], (4, 8)[ci]
+
+    def case(self, rank):
+        (mo, r0, c0), v, mname, conn = self.parts_of(rank)
+        a = self.base.copy()
+        for r, c in MOTIFS[mo][1]:
+            a[r0 + r, c0 + c] = v
+        return self.shape, a, (None if mname == "none" else self.border.copy()), conn
+
+    def describe(self, rank):
+        (mo, r0, c0), v, mname, conn = self.parts_of(rank)
+        d = PolySpace.describe(self, rank)
+        d["construction"] = "checkerboard (r+c)%%2, motif %s at row %d col %d with value %r, mask %s" % (
+            MOTIFS[mo][0], r0, c0, v, mname)
+        d["transforms"] = {n: t for n, t in self.tfs(self.shape)}
+        return d
+
+    def key(self, a, mask, conn, extra=""):
+        # short literal: the cells that differ from the checkerboard
+        dev = ["(%d,%d)=%g" % (r, c, a[r, c]) for r, c in zip(*np.nonzero(a != self.base))]
+        return "polygonize|raster=checkerboard %dx%d + {%s}|dtype=%s|mask=%s|conn=%d%s" % (
+            a.shape[0], a.shape[1], ",".join(dev), self.dtype, "None" if mask is None else "border_out", conn, extra)
+
+
 def build(tier):
-    return [PolySpace(n, shapes, al, dt, mm, md, lp) for n, shapes, al, dts, mm, md, lps in SPEC[tier] for dt in dts
-            for lp in lps]
+    spaces = [PolySpace(n, shapes, al, dt, mm, md, lp) for n, shapes, al, dts, mm, md, lps in SPEC[tier] for dt in dts
+              for lp in lps]
+    return spaces + [CheckerSpace(sh, dt, CHECKER_VALUES[tier]) for sh, dt in CHECKER[tier]]
